@@ -87,8 +87,7 @@ Definition list_world (w : world) (focus : string) (has_ingress : bool) : outcom
         do blocks <- referenced_blocks (w_nps w);
         let peers := mpeers_of w (ip_partition blocks) in
         let exists_focus :=
-            if String.eqb focus IngressPodName then has_ingress
-            else existsb (mp_focus focus) peers in
+            existsb (mp_focus focus) peers || (String.eqb focus IngressPodName && has_ingress) in
         if negb (String.eqb focus "") && negb exists_focus then Ok (mkLR [] [] true)
         else do es <- all_rows w focus peers peers;
              Ok (mkLR es (map mp_r peers) false)
@@ -264,3 +263,12 @@ Record meta_case := mkMC { mc_id : nat; mc_rel : nat; mc_skip_src : list string;
 Definition meta_mismatches (cs : list meta_case) : list (nat * nat) :=
   flat_map (fun c => if reports_rel_b (mc_rel c) (mc_skip_src c) (mc_skip_dst c) (mc_es1 c) (mc_ps1 c) (mc_es2 c) (mc_ps2 c)
                      then [] else [(mc_id c, mc_rel c)]) cs.
+
+(* ---------- focus filter relation between two reports (C16) ---------- *)
+Record focus_case := mkFC { fc_id : nat; fc_matching : list string;     (* workloads whose name matches the focus *)
+                            fc_full : list rentry; fc_focused : list rentry }.
+Definition focus_filter_b (c : focus_case) : bool :=
+  let m p := match p with RW s => str_mem s (fc_matching c) | RIP _ _ => false end in
+  entries_eqb (filter (fun e => m (re_src e) || m (re_dst e)) (fc_full c)) (fc_focused c).
+Definition focus_mismatches (cs : list focus_case) : list (nat * nat) :=
+  flat_map (fun c => if focus_filter_b c then [] else [(fc_id c, 1%nat)]) cs.
